@@ -279,7 +279,7 @@ def trace_models(chk, pid, binary, sc, gen, d11, natural, maxperm):
     traces = []
     for o in obs.values():
         for oc in o["outcomes"][:6]:
-            traces.append({"id": o["id"], "m": o["m"], "roots": oc["roots"]})
+            traces.append({"id": o["id"], "m": o["m"], "roots": oc["roots"], "strict": True})
     tf = sc.path("wg_traces.ndjson")
     write_ndjson(tf, traces)
     res = run_tlc("WGraphTrace", TRACE_CFG % {"devs": DEVS_CURRENT}, sc, data_files={"wg_traces.ndjson": tf}, timeout=3000)
